@@ -15,7 +15,9 @@ pub fn classify(b: &[u8; 4]) -> &'static str {
         0x0f if i + 2 < 4 && (b[i + 1] == 0xb6 || b[i + 1] == 0xb7) && b[i + 2] >= 0xc0 => "movzx-reg-reg",
         0x0f if i + 1 < 4 && b[i + 1] == 0x1f => "nop",
         0xc3 => "ret",
-        0x55 | 0x5d | 0x90 => "frame/nop",
+        0x50..=0x57 => "push-reg", // stack alignment / frame bookkeeping emitted by the compiler around an asm block that uses the stack
+        0x5d | 0x90 => "frame/nop",
+        0x58..=0x5f => "pop-reg", // the second half of `pushfq; pop r` (an unbalanced pop cannot go unnoticed)
         0xf3 if b[1] == 0x0f && b[2] == 0x1e => "endbr",
         _ => "other",
     }
